@@ -59,10 +59,7 @@ func (s *Server) HandleBefore(
 // isBlockedHost returns true if host is blocked by the current access settings.
 // It is safe for concurrent use.
 func (s *Server) isBlockedHost(host string, qt uint16) (ok bool) {
-	s.serverLock.RLock()
-	defer s.serverLock.RUnlock()
-
-	return s.access.isBlockedHost(host, qt)
+	return s.access.Load().isBlockedHost(host, qt)
 }
 
 // clientIDFromDNSContext extracts the client's ID from the server name of the
